@@ -1353,11 +1353,15 @@ impl FusionVisitor for ShapeSliceToConstant {
             return Err(FusionError::CheckFailed("wrong output count"));
         };
 
+        // Give the constant the name of the value it replaces, so that the
+        // value can still be looked up by name.
+        let output_name = graph.get_node(output_id).and_then(|n| n.name());
+
         Ok(Fusion::Constant {
             input_ids: [x_id].into(),
             output_id,
             value: ConstantNode::new(
-                op_node.name(),
+                output_name,
                 ConstantNodeData::Arc(ArcTensor::from_data(&[dims.len()], Arc::new(dims))),
             )
             .into(),
